@@ -124,9 +124,13 @@ ModelStep(s) ==
                         { d \in TDev : CX(d)!Handle(mnode[n], m) # r })
       [] OTHER -> Fail("MODEL:unknown_action")
 
+\* exercised deviations as a bit mask over the positions in Tr.dev (TLC wraps long printed values)
+RECURSIVE UsedMask(_)
+UsedMask(i) == IF i > Len(Tr.dev) THEN 0 ELSE (IF Tr.dev[i] \in ms.used THEN 2 ^ (i - 1) ELSE 0) + UsedMask(i + 1)
+
 Finish(verdict, pos) ==
     /\ PrintT(<<"V", Tr.id, verdict, pos>>)
-    /\ PrintT(<<"M", Tr.id, ms.mism, ms.mpos, ms.used>>)
+    /\ PrintT(<<"M", Tr.id, ms.mism, ms.mpos, UsedMask(1)>>)
     /\ ti' = ti + 1
     /\ IF ti < NT
        THEN LET T2 == Traces[ti + 1] IN
